@@ -1060,6 +1060,10 @@ func (m *Dot11) DecodeFromBytes(data []byte, df gopacket.DecodeFeedback) error {
 	m.Type = Dot11Type((data[0])&0xFC) >> 2
 
 	m.DataLayer = nil
+	// fields that only some frame types carry are those of this frame only, also when the layer is reused
+	m.Address2, m.Address3, m.Address4 = nil, nil, nil
+	m.SequenceNumber, m.FragmentNumber = 0, 0
+	m.QOS, m.HTControl = nil, nil
 	m.Proto = uint8(data[0]) & 0x0003
 	m.Flags = Dot11Flags(data[1])
 	m.DurationID = binary.LittleEndian.Uint16(data[2:4])
